@@ -244,13 +244,47 @@ func (fv *FuncVC) bindRangeLen(env *Env, h *ssa.BasicBlock) {
 			env.names["rangelen"] = val
 		}
 	}
+	// loopbound: the right operand of the header test `x < bound`
+	if len(h.Instrs) > 0 {
+		if iff, ok := h.Instrs[len(h.Instrs)-1].(*ssa.If); ok {
+			if cmp, ok := iff.Cond.(*ssa.BinOp); ok && cmp.Op == token.LSS {
+				if ph, isPhi := cmp.Y.(*ssa.Phi); !isPhi || ph.Block() != h {
+					if _, isConst := cmp.Y.(*ssa.Const); isConst {
+						env.names["loopbound"] = fv.operand(cmp.Y)
+					} else if val, ok := fv.vals[cmp.Y]; ok {
+						env.names["loopbound"] = val
+					}
+				}
+			}
+		}
+	}
 }
 
 func (fv *FuncVC) loopSpec(h *ssa.BasicBlock) *LoopSpec {
 	if fv.C == nil {
 		return nil
 	}
-	return fv.C.Loops[fv.loopHeads[h]]
+	spec := fv.C.Loops[fv.loopHeads[h]]
+	if fv.inferCounters {
+		if cached, ok := fv.inferred[h]; ok {
+			return cached
+		}
+		extra := fv.inferCounterInvariants(h)
+		if len(extra) > 0 {
+			ns := &LoopSpec{N: fv.loopHeads[h]}
+			if spec != nil {
+				*ns = *spec
+				ns.Invs = append([]*Clause{}, spec.Invs...)
+			}
+			ns.Invs = append(ns.Invs, extra...)
+			spec = ns
+		}
+		if fv.inferred == nil {
+			fv.inferred = map[*ssa.BasicBlock]*LoopSpec{}
+		}
+		fv.inferred[h] = spec
+	}
+	return spec
 }
 
 type loopInfo struct {
